@@ -10,10 +10,14 @@ RULE = ('case = one real emulate_cycle() on (word, instruction set, IT position,
         'protection on/off, random valid register state); words: ALL 2^16 Thumb-16 words x 3 IT positions, >=N solved '
         'members of EVERY feasible path of the real ARM and Thumb-32 decoders (paths enumerated completely by the '
         'bit-provenance tracer, partition checked by model counting), uniformly random words, and random 50-step '
-        'programs; non-trivial = the step got past decode (an opcode object executed or an architectural exception '
+        'programs; a third of the VMSA steps run with the MMU on and translation registers (TTBCR incl. EAE, TTBRs, DACR, '
+        'PRRR/NMRR, MAIR, HCR.VM/VTCR/VTTBR, HTCR/HTTBR) pointing at arbitrary RAM contents; every MCR/MRC (and MCRR/MRRC) '
+        'register address of cp14/cp15 written then read on one long-lived instance with an audit that no register object '
+        'changed type, followed by take_reset(); non-trivial = the step got past decode (an opcode object executed or an architectural exception '
         'was taken); distinct = (instruction set, decoder path id or T16 word>>4, outcome, context)')
 ASSUMPTIONS = ['NotImplementedError escaping emulate_cycle is the documented not-implemented outcome',
-               'machine states are generated valid (legal mode for the configuration, J=0, IT=0 in ARM state)']
+               'machine states are generated valid (legal mode for the configuration, J=0, IT=0 in ARM state; VTCR.SL0/T0SZ '
+               'pairs the manual calls UNPREDICTABLE are not generated)']
 
 CTXS = [('v6-pmsa-sec', 'off'), ('v6-pmsa-sec', 'mpu'), ('v7-pmsa-r', 'off'), ('v7-vmsa-sec', 'off'),
         ('v7-vmsa-sec', 'mmu'), ('v7-vmsa-virt', 'off'), ('v5-pmsa', 'off'), ('v4-pmsa', 'off'), ('v6-pmsa', 'mpu'),
@@ -77,7 +81,8 @@ class Mon:
         cpu = ctx.cpu
         if ctx.cfg['memory_system_architecture'] == 'VMSA' and rng.random() < 0.35:
             hostile_mmu(cpu, ctx.cfg, rng, ns)
-            desc['hostile_mmu'] = True
+            r_ = cpu.registers
+            desc['hostile_mmu'] = {k: getattr(getattr(r_, k), 'value', getattr(r_, k)) for k in HOSTILE_REGS if hasattr(r_, k)}
             self.bump('steps_with_hostile_mmu_setup')
         pre_mode = cpu.registers.cpsr.m
         k, sig = scen.step(cpu)
@@ -110,6 +115,8 @@ class Mon:
 
 
 VECTORS = set()
+HOSTILE_REGS = ('sctlr', 'ttbcr', 'ttbr0', 'ttbr0_64', 'ttbr1', 'ttbr1_64', 'dacr', 'prrr', 'nmrr', 'mair0', 'mair1', 'hcr', 'vtcr',
+                'vttbr', 'htcr', 'httbr', 'hsctlr', 'hmair0', 'hmair1')
 
 
 def hostile_mmu(cpu, cfg, rng, ns):
@@ -361,6 +368,12 @@ def replay(data):
     scen.prepare(ctx, rng, rp['kind'], int(rp['word'], 16), mode=rp['mode'], itpos='out', ns=rp['ns'], regs=regs)
     cpu = ctx.cpu
     cpu.registers.cpsr.value = int(rp['cpsr'], 16)
+    for k_, v in (rp.get('hostile_mmu') or {}).items():
+        reg = getattr(cpu.registers, k_)
+        if hasattr(reg, 'value'):
+            reg.value = v
+        else:
+            setattr(cpu.registers, k_, v)
     out = dict(evaluations=1, violations=[])
     k, sig = scen.step(cpu)
     if k == 'host':
@@ -381,7 +394,12 @@ def finish(agg, tier, seed):
                                                                        c.get('paths_total_' + n, 0)))
     if c.get('outcome_done', 0) < 1000:
         inc.append('too few completed steps')
+    if c.get('steps_with_hostile_mmu_setup', 0) < 2000:
+        inc.append('too few steps under a hostile MMU set-up (%d)' % c.get('steps_with_hostile_mmu_setup', 0))
+    if c.get('sysreg_steps', 0) < 16 * 4096 or c.get('type_audits', 0) < 500:
+        inc.append('system-register sweep incomplete (%d steps, %d type audits)' % (c.get('sysreg_steps', 0), c.get('type_audits', 0)))
     return dict(inconclusive=inc, coverage=dict(
         exhaustive_subspaces=['all 2^16 Thumb-16 words x {outside IT, inside, last}',
-                              'every feasible path of the real ARM / Thumb-32 decoders visited at least once'],
+                              'every feasible path of the real ARM / Thumb-32 decoders visited at least once',
+                              'every MCR/MRC register address (opc1, CRn, CRm, opc2) of cp14 and cp15, written then read'],
         explanation='exhaustive only for the sub-spaces named; everything else sampled'))
